@@ -18,7 +18,7 @@ compare-exchange loop guarded by `next > limit => OutOfMemory` with no plain fet
 commit gives its amount back; only the reviewed functions write memory_usage. Not decided: exact equality of the counter
 with the live sum (key.capacity() vs key.len() is value-level), the instantaneous bound beyond "admission is a CAS".
 """
-DECIDED = ["recovery debits the displaced generation's size and credits the scanned record's size", "reserve -> publish -> commit (+count) on new keys", "growth reserved before / shrink released after replacement",
+DECIDED = ['expiry paths debit the size of the record they remove (identity re-validation, shared with C07.identity)', "recovery debits the displaced generation's size and credits the scanned record's size", "reserve -> publish -> commit (+count) on new keys", "growth reserved before / shrink released after replacement",
            "one count and one byte decrement per removal", "recovery accounting", "CAS admission against the limit; rollback on drop",
            'one definition of the per-record footprint for every debit and credit',
            'admission test re-evaluated on every compare-exchange attempt']
@@ -371,7 +371,17 @@ def check_limit(ctx):
         fs = ctx.sites(b, R.field_write("Statistics", "memory_usage", ops=["fetch_sub"]), inst, exact=1)
 
 
+def check_rem_identity(ctx):
+    """the expiry paths size the debit from the record they sampled *before* taking the bucket guard; the debit matches the record
+    removed only because removal is refused unless the record under the guard is that very record (same rule as C07.identity).
+    Retiring "whatever is current" debits the sampled generation's size for a generation of another size: memory_usage drifts for
+    ever, len() stays right."""
+    from rules import C07
+    C07.check_identity(ctx, "C13.rem/identity", kinds=("rem",))
+
+
 def check(ctx):
+    check_rem_identity(ctx)
     check_record_fields(ctx)
     check_size_functions(ctx)
     check_new(ctx)
